@@ -218,6 +218,12 @@ def r9_anchored(ctx, modules, rule='R9', floor=1, name_test_only=True):
             run.ok(rule, where(ctx.repo, c), u(c), 'fullmatch')
             continue
         n += 1
+        if en == 're.compile' and (len(c.args) > 1 or c.keywords):
+            run.fail(rule, where(ctx.repo, c), fi.qualname, c,
+                     'the name pattern is compiled with flags (%s): names are then matched under other rules than the plain '
+                     'full-string regular expression the documentation promises (e.g. case-insensitively)'
+                     % ', '.join([u(a) for a in c.args[1:]] + [u(k.value) for k in c.keywords]))
+            continue
         if anchored(parts):
             run.ok(rule, where(ctx.repo, c), u(c), 'anchored: ' + ''.join(p[1] if p[0] == 'lit' else '<%s>' % p[1]
                                                                         for p in parts))
